@@ -342,7 +342,7 @@ class Runner:
             g.dead = False
             g.crash_after = None
         if g.bypassed:
-            rep.inconc("oscore.py modified the file system through calls that are not interposed: %s" % g.bypassed[:3])
+            rep.inconc("oscore.py modified the file system through calls that are not interposed: %s" % sorted(g.bypassed)[:4])
             del g.bypassed[:]
         orc.end(ended)
         return ended
@@ -354,7 +354,7 @@ class Runner:
         old = orc.accepted_before
         if not old:
             return
-        idx = sorted({0, len(old) - 1, len(old) // 2, len(old) // 3})
+        idx = range(len(old)) if len(old) <= 12 else sorted({0, 1, len(old) - 1, len(old) - 2, len(old) // 2, len(old) // 3})
         mon = "replay_after_crash" if orc.prev_stop == "crash" else "replay_after_clean"
         for i in idx:
             n, echo = old[i]
